@@ -138,8 +138,8 @@ func (r *Run) EmitSeqRef(name string, scope Scope) {
 	writeJSON(refPath(name), ref)
 }
 
-func (r *Run) CheckCallSeq(rule, name string, scope Scope, min int) {
-	r.Rule(rule, "operation order: for every function of the frozen reference ("+name+") the ordered list of in-module calls (with their constant string arguments) contains the reference list as a subsequence, and every parameter that was used is still used; a replaced primitive, a skipped step, a changed correlation id / label or an ignored input is named")
+func (r *Run) CheckCallSeq(rule, name string, scope Scope, min int, ordered bool) {
+	r.Rule(rule, "operation order: for every function of the frozen reference ("+name+") the in-module calls (with their constant string arguments) include the reference calls – as an ordered subsequence for runners / exchange layer / hash-to-curve, as a multiset elsewhere – and every parameter that was used is still used; a replaced primitive, a skipped step, a changed correlation id / label or an ignored input is named")
 	var ref seqRef
 	if err := readJSON(refPath(name), &ref); err != nil {
 		r.FailKind("anchor-unresolved", rule, "ref:"+name, err.Error())
@@ -162,10 +162,37 @@ func (r *Run) CheckCallSeq(rule, name string, scope Scope, min int) {
 		}
 		n++
 		now := r.callSeqOf(fd)
-		if miss, ok := firstUnmatched(now, ref.Functions[k]); ok {
-			r.Pass(rule, k, r.Prog.RelPos(fd.Decl.Pos()), fmt.Sprintf("%d calls in order", len(ref.Functions[k])))
-		} else {
-			r.Fail(rule, k+" :: "+miss, r.Prog.RelPos(fd.Decl.Pos()), "call `"+miss+"` is missing or out of order")
+		if ordered {
+			if miss, ok := firstUnmatched(now, ref.Functions[k]); ok {
+				r.Pass(rule, k, r.Prog.RelPos(fd.Decl.Pos()), fmt.Sprintf("%d calls in order", len(ref.Functions[k])))
+			} else {
+				r.Fail(rule, k+" :: "+miss, r.Prog.RelPos(fd.Decl.Pos()), "call `"+miss+"` is missing or out of order")
+			}
+			continue
+		}
+		// order-insensitive: independent computations may be reordered freely
+		have := map[string]int{}
+		for _, c := range now {
+			have[c]++
+		}
+		okAll := true
+		want := map[string]int{}
+		for _, c := range ref.Functions[k] {
+			want[c]++
+		}
+		ws := []string{}
+		for c := range want {
+			ws = append(ws, c)
+		}
+		sort.Strings(ws)
+		for _, c := range ws {
+			if have[c] < want[c] {
+				okAll = false
+				r.Fail(rule, k+" :: "+c, r.Prog.RelPos(fd.Decl.Pos()), fmt.Sprintf("call `%s` occurs %d time(s), reference has %d: the function no longer performs that operation", c, have[c], want[c]))
+			}
+		}
+		if okAll {
+			r.Pass(rule, k, r.Prog.RelPos(fd.Decl.Pos()), fmt.Sprintf("%d distinct calls present", len(want)))
 		}
 	}
 	pk := []string{}
